@@ -19,8 +19,8 @@ EXPLANATION = ('Decides, for all inputs and on every backend, that the real func
                'Length preservation, composition, q == -q and inverse-undoes are algebraic corollaries for unit q; rounding is bounded by the depth certificate.')
 LEVEL_NOTE = 'Decides the algebraic identity and rounding depth; corollaries for unit quaternions are by algebra, not re-checked numerically. Trusted: rustc MIR, intrinsic table, rules/spec.py.'
 
-CONFIGS_QUICK = ['sse2', 'scalar']
-CONFIGS_THOROUGH = ['sse2', 'sse2-fma', 'scalar', 'coresimd', 'neon', 'wasm32']
+CONFIGS_QUICK = ['sse2', 'sse2-fma', 'sse41', 'scalar', 'coresimd', 'neon', 'wasm32']
+CONFIGS_THOROUGH = ['sse2', 'sse2-fma', 'sse41', 'scalar', 'coresimd', 'neon', 'wasm32']
 QUATS = ('Quat', 'DQuat')
 
 
